@@ -11,6 +11,7 @@ unrepaired code is the same model under `Cfg.original`, for which the full state
 import QbVerif.Model.Serialize
 import QbVerif.Model.SerRender
 import QbVerif.Lemmas.SerBounds
+import QbVerif.Lemmas.SerRound
 
 namespace QbVerif.Props.C14
 open QbVerif.Ser
@@ -59,6 +60,174 @@ def stdRender : Render := fun m a => (renderStd m a).getD []
 /-- non-vacuity: `"%100d%d"` decoded into 64 bytes is cut, not overflowed -/
 example : (deserialize Cfg.repaired stdRender
     ([0x25, 0x31, 0x30, 0x30, 0x64, 0x25, 0x64] ++ [0, 1, 0, 0, 0, 2, 0, 0, 0]) 64).ret = 64 := by decide +kernel
+
+/-! ## Round trip: the decoded text is printf's text
+
+Vocabulary (Model/SerSpec.lean; nothing there mentions encoder or decoder): a format is a list of
+`Item`s — literal runs, `%%`, conversions `% flags/width [*] [.digits | .*] [l ll z t j] conv` with
+conv ∈ d i o u x X  e E f F g G a A  c s p — each conversion with its typed argument and the values
+of its `*`s (`WellTyped`).  `fmtOf` / `argsOf` are the format string and the `va_list`,
+`recordOf = fmt ++ [0] ++ encOf` the record layout, and
+`printfSpec render items` = literal runs, `%` for `%%`, and `render <conversion with the * values
+written out> <argument>` concatenated: printf's compositional text, `render` being libc's
+`snprintf` of ONE conversion (an opaque parameter: the theorems hold for every `render`).
+
+FULL STATEMENT (first sentence of C14): for every format from the grammar above, *the
+extended-information marker QB_XC anywhere in the literal text included*, and every argument list
+of the right types, if the record fits `max_len` and the text fits `str_len`, then
+`deserialize (serialize fmt args) = printfSpec` (with the first marker shown as '|', or dropped
+when it is the last character of the format).
+PROVED below: `roundtrip_partial_nomarker` — exactly that for all formats without the byte QB_XC
+(7): all conversions, flags, widths, precisions, both `*`, all length modifiers, `%%`, any number
+of items in any order; `roundtrip_partial_marker` — the same for every format whose first marker
+is not the LAST character of the format (it subsumes the first: no marker at all is allowed): the
+text is that of `xcItems items`, the items with the first QB_XC of the literal text replaced by '|'.
+MISSING for the full statement: a format that ENDS in the marker (`xcPatch` then shortens the
+stored format by one and `location--`; the encoder lemmas of Lemmas/SerBig.lean are stated for
+stores at the end of the data written so far, which is false for that one byte) — exercised by
+the differential stream and corpus only.
+Hypotheses that are part of the statement, not gaps:
+  * `MiniFits`: each conversion with its `*` values written out fits the decoder's 20-byte mini
+    format (class of KF-C14-mini-format);
+  * `StrPrecOk render`: `render "%.Ns" s = render "%.Ns" (first N bytes of s)` — the encoder keeps
+    only N bytes of a `%.Ns` argument (true of snprintf; vacuous without literal `%s` precision);
+  * the text contains no NUL byte (`%c` with 0): the result is a C string.
+-/
+
+/-- **The encoder lays the record out as `recordOf`** (format, NUL, arguments in order, each in
+    the size its conversion and length modifier select) and returns its length, for every
+    well-typed format whose record fits `max_len`. -/
+theorem ser_record (items : List Item) (maxLen : Nat) (hwf : WellTyped items) (hx : NoMarker items)
+    (hfit : (recordOf items).length ≤ maxLen) :
+    (serialize Cfg.repaired (fmtOf items) (argsOf items) maxLen).ret = (recordOf items).length ∧
+    (serialize Cfg.repaired (fmtOf items) (argsOf items) maxLen).bytes = recordOf items :=
+  serialize_items items maxLen hwf hx hfit
+
+/-- **The decoder turns such a record (followed by any bytes `X`: the record buffer is larger than
+    the record) into printf's text** and returns its length + 1, whenever the text fits `str_len`. -/
+theorem deser_record (render : Render) (items : List Item) (X : Bytes) (strLen : Nat)
+    (hwf : WellTyped items) (hmf : MiniFits items) (hsp : StrPrecOk render items)
+    (hnn : (0 : UInt8) ∉ printfSpec render items) (htext : (printfSpec render items).length < strLen) :
+    (deserialize Cfg.repaired render (recordOf items ++ X) strLen).text = printfSpec render items ∧
+    (deserialize Cfg.repaired render (recordOf items ++ X) strLen).ret = (printfSpec render items).length + 1 := by
+  rw [← printfRec_eq render items hsp] at hnn htext ⊢
+  exact deserialize_items render strLen items X hwf hmf hnn htext
+
+/-- **Alignment** (the lemma the round trip rests on): cut the format between any two items.
+    After the first part the encoder's `location` and the decoder's `data_pos` are the same offset
+    `(fmt ++ [0] ++ encOf pre).length` — where the encoder is about to store, and the decoder about
+    to read, the first argument of the second part — the decoder has produced exactly the text of
+    the first part (`T ++ run`: copied out + pending literal run), and both are between two
+    conversions (`SerSync` / `DeSync`: text mode, nothing pending, no early return). -/
+theorem alignment (render : Render) (pre post : List Item) (X : Bytes) (maxLen strLen : Nat)
+    (hwf : WellTyped (pre ++ post)) (hx : NoMarker (pre ++ post)) (hmf : MiniFits (pre ++ post))
+    (hsp : StrPrecOk render (pre ++ post)) (hrec : (recordOf (pre ++ post)).length ≤ maxLen)
+    (htext : (printfSpec render (pre ++ post)).length < strLen) :
+    ∃ se sd T run,
+      serRun Cfg.repaired maxLen (serInit Cfg.repaired (fmtOf (pre ++ post)) (argsOf (pre ++ post)) maxLen)
+          (fmtOf (pre ++ post)) = serRun Cfg.repaired maxLen se (fmtOf post) ∧
+      deRun Cfg.repaired render (recordOf (pre ++ post) ++ X) strLen (deInit (recordOf (pre ++ post) ++ X) strLen)
+          (fmtOf (pre ++ post)) = deRun Cfg.repaired render (recordOf (pre ++ post) ++ X) strLen sd (fmtOf post) ∧
+      se.loc = (fmtOf (pre ++ post) ++ [0] ++ encOf pre).length ∧ sd.dpos = se.loc ∧
+      se.args = argsOf post ∧ se.inDir = false ∧ sd.inDir = false ∧ se.ret = none ∧ sd.ret = none ∧
+      T ++ run = printfSpec render pre ∧ sd.loc = T.length ∧ sd.run = run ∧
+      (recordOf (pre ++ post) ++ X).drop sd.dpos = encOf post ++ X := by
+  rw [← printfRec_eq render _ hsp] at htext
+  obtain ⟨se, sd, T, run, e1, e2, hse, hsd, ht, hd⟩ :=
+    alignment_items render pre post X maxLen strLen hwf hx hmf hrec htext
+  have hsp' : StrPrecOk render pre := fun d w p v hm => hsp d w p v (by simp [hm])
+  refine ⟨se, sd, T, run, e1, e2, hse.loc, by rw [hsd.dpos, hse.loc], hse.args, hse.dir, hsd.dir, hse.ret, hsd.ret,
+    by rw [ht, printfRec_eq render pre hsp'], hsd.loc, hsd.run, by rw [hsd.dpos]; exact hd⟩
+
+/-- **Round trip** for every well-typed format without the marker byte (see the comment above for
+    the full statement and what is missing): when the record fits `max_len` and
+    the text fits `str_len`, the encoder returns the record length, and decoding what it wrote gives
+    printf's text and its length + 1. -/
+theorem roundtrip_partial_nomarker (render : Render) (items : List Item) (maxLen strLen : Nat)
+    (hwf : WellTyped items) (hx : NoMarker items) (hmf : MiniFits items) (hsp : StrPrecOk render items)
+    (hnn : (0 : UInt8) ∉ printfSpec render items)
+    (hrec : (recordOf items).length ≤ maxLen) (htext : (printfSpec render items).length < strLen) :
+    (serialize Cfg.repaired (fmtOf items) (argsOf items) maxLen).ret = (recordOf items).length ∧
+    (deserialize Cfg.repaired render (serialize Cfg.repaired (fmtOf items) (argsOf items) maxLen).bytes strLen).text
+      = printfSpec render items ∧
+    (deserialize Cfg.repaired render (serialize Cfg.repaired (fmtOf items) (argsOf items) maxLen).bytes strLen).ret
+      = (printfSpec render items).length + 1 := by
+  obtain ⟨h1, h2⟩ := ser_record items maxLen hwf hx hrec
+  have h3 := deser_record render items [] strLen hwf hmf hsp hnn htext
+  rw [List.append_nil] at h3
+  rw [h2]
+  exact ⟨h1, h3⟩
+
+/-- **Round trip with the extended-information marker**: for every well-typed format whose first
+    QB_XC (if any) is not its last character: the encoder returns the record length, stores the
+    record of `xcItems items` (first marker of the literal text shown as '|'), and decoding it gives
+    printf's text of `xcItems items` — what the normal logging path prints for such a message. -/
+theorem roundtrip_partial_marker (render : Render) (items : List Item) (maxLen strLen : Nat)
+    (hwf : WellTyped items) (hmf : MiniFits items) (hsp : StrPrecOk render items)
+    (hnl : (fmtOf items).findIdx (· = QbVerif.Gen.QB_XC.toUInt8) + 1 ≠ (fmtOf items).length)
+    (hnn : (0 : UInt8) ∉ printfSpec render (xcItems items))
+    (hrec : (recordOf items).length ≤ maxLen) (htext : (printfSpec render (xcItems items)).length < strLen) :
+    (serialize Cfg.repaired (fmtOf items) (argsOf items) maxLen).ret = (recordOf items).length ∧
+    (serialize Cfg.repaired (fmtOf items) (argsOf items) maxLen).bytes = recordOf (xcItems items) ∧
+    (deserialize Cfg.repaired render (serialize Cfg.repaired (fmtOf items) (argsOf items) maxLen).bytes strLen).text
+      = printfSpec render (xcItems items) ∧
+    (deserialize Cfg.repaired render (serialize Cfg.repaired (fmtOf items) (argsOf items) maxLen).bytes strLen).ret
+      = (printfSpec render (xcItems items)).length + 1 := by
+  obtain ⟨h1, h2⟩ := serialize_items_xc items maxLen hwf hnl hrec
+  have h3 := deser_record render (xcItems items) [] strLen (wf_xcItems items hwf) (miniFits_xcItems items hmf)
+    (strPrecOk_xcItems render items hsp) hnn htext
+  rw [List.append_nil] at h3
+  rw [h2]
+  exact ⟨h1, rfl, h3⟩
+
+/-- a format exercising every part of the grammar: `"x=%d %-*.3s%%%.*llx|%5.1f%c%p"` with
+    -7, (6, "hello"), (4, 255), a double, 'A', a pointer -/
+def demoItems : List Item :=
+  [ .lit [0x78, 0x3d],
+    .dir ⟨[], false, .none, .none, 0x64⟩ 0 0 (.int (-7)),
+    .lit [0x20],
+    .dir ⟨[0x2d], true, .lit [0x33], .none, 0x73⟩ 6 0 (.str (some [0x68, 0x65, 0x6c, 0x6c, 0x6f])),
+    .pct,
+    .dir ⟨[], false, .star, .ll, 0x78⟩ 0 4 (.llong 255),
+    .lit [0x7c],
+    .dir ⟨[0x35], false, .lit [0x31], .none, 0x66⟩ 0 0 (.dbl 0x400921FB54442D18),
+    .dir ⟨[], false, .none, .none, 0x63⟩ 0 0 (.chr 0x41),
+    .dir ⟨[], false, .none, .none, 0x70⟩ 0 0 (.ptr 0xdeadbeef) ]
+
+/-- a rendering function for the witness: the model's own for d i o u x X c s, a fixed text otherwise -/
+def demoRender : Render := fun m a => (renderStd m a).getD [0x3f]
+
+/-- non-vacuity of `roundtrip_partial_nomarker`, `ser_record`, `deser_record`, `alignment`: the
+    hypotheses hold for `demoItems` with a 100-byte record and a 64-byte line -/
+example : WellTyped demoItems ∧ NoMarker demoItems ∧ MiniFits demoItems ∧ StrPrecOk demoRender demoItems ∧
+    (0 : UInt8) ∉ printfSpec demoRender demoItems ∧ (recordOf demoItems).length ≤ 100 ∧
+    (printfSpec demoRender demoItems).length < 64 :=
+  ⟨by decide, by unfold NoMarker; decide, miniFits_of_B _ (by decide), strPrecOk_of_B _ _ (by decide +kernel),
+   by decide +kernel, by decide, by decide +kernel⟩
+
+/-- … and the conclusion computed on it: "x=-7 hel   %00ff|?A?" -/
+example : (deserialize Cfg.repaired demoRender
+    (serialize Cfg.repaired (fmtOf demoItems) (argsOf demoItems) 100).bytes 64).text =
+    [0x78, 0x3d, 0x2d, 0x37, 0x20, 0x68, 0x65, 0x6c, 0x20, 0x20, 0x20, 0x25, 0x30, 0x30, 0x66, 0x66, 0x7c, 0x3f,
+     0x41, 0x3f] := by decide +kernel
+
+/-- `"a%d<QB_XC>b%s"` with 5, "x": a format with the marker between two conversions -/
+def demoMarker : List Item :=
+  [ .lit [0x61], .dir ⟨[], false, .none, .none, 0x64⟩ 0 0 (.int 5), .lit [0x07, 0x62],
+    .dir ⟨[], false, .none, .none, 0x73⟩ 0 0 (.str (some [0x78])) ]
+
+/-- non-vacuity of `roundtrip_partial_marker` with a marker present -/
+example : WellTyped demoMarker ∧ MiniFits demoMarker ∧ StrPrecOk demoRender demoMarker ∧
+    (fmtOf demoMarker).findIdx (· = QbVerif.Gen.QB_XC.toUInt8) + 1 ≠ (fmtOf demoMarker).length ∧
+    (0 : UInt8) ∉ printfSpec demoRender (xcItems demoMarker) ∧ (recordOf demoMarker).length ≤ 32 ∧
+    (printfSpec demoRender (xcItems demoMarker)).length < 16 :=
+  ⟨by decide, miniFits_of_B _ (by decide), strPrecOk_of_B _ _ (by decide +kernel), by decide, by decide +kernel,
+   by decide, by decide +kernel⟩
+
+/-- … decoded: "a5|bx" -/
+example : (deserialize Cfg.repaired demoRender
+    (serialize Cfg.repaired (fmtOf demoMarker) (argsOf demoMarker) 32).bytes 16).text =
+    [0x61, 0x35, 0x7c, 0x62, 0x78] := by decide +kernel
 
 /-! ## Refutation witnesses: the same statements are false for the code as it was -/
 
